@@ -139,6 +139,17 @@ Theorem C19_registry_complete : forall fitf predf hdd fl l st st' ev out,
 Proof. exact run_registry. Qed.
 Print Assumptions C19_registry_complete.
 
+(* ... and nothing is forgotten: the object keeps the names it had, and the names already in the
+   master file (earlier runs, possibly over another grid) are merged into the new one *)
+Theorem C19_registry_merged_with_master : forall fitf predf hdd fl l st st' ev out,
+  legal hdd fl -> run fitf predf hdd fl None l st = (st', ev, out) ->
+  (forall x, In x (snames st) -> In x (snames st')) /\
+  (forall x, In x (dnames st) -> In x (dnames st')) /\
+  (hdd = true -> forall ms md, master st = Some (ms, md) ->
+     (forall x, In x ms -> In x (snames st')) /\ (forall x, In x md -> In x (dnames st'))).
+Proof. exact run_registry_keeps. Qed.
+Print Assumptions C19_registry_merged_with_master.
+
 (* read-back after a run over a grid with a NEW results object (resumed / repeated benchmark):
    load_predictions succeeds for every fold and requested part, returns one record for every
    strategy x dataset of the grid, each exactly what fit-then-predict on that fold gives *)
